@@ -1436,6 +1436,9 @@ class AnsiString:
             self._s = obj._s
             self._fmts = obj._fmts
             return self
+        elif obj is self:
+            # Nothing was replaced - still return a new object rather than self
+            return self.copy()
         else:
             return obj
 
